@@ -223,8 +223,8 @@ type TxScript struct {
 // ---------------------------------------------------------------- generators
 
 var (
-	argNames   = []string{"a", "b", "A", "c", "id", "x1", "a"}
-	argValues  = []string{"1", "2", "foo", "Bar", "EVIL", "evil", "a+b", "%41bc", "x y", "", "tok1", "tok2", "<ScRipt>",
+	argNames  = []string{"a", "b", "A", "c", "id", "x1", "a"}
+	argValues = []string{"1", "2", "foo", "Bar", "EVIL", "evil", "a+b", "%41bc", "x y", "", "tok1", "tok2", "<ScRipt>",
 		// long values (anything that treats long inputs differently: verdict caches, chunked copies)
 		"evil" + strings.Repeat("x", 120), strings.Repeat("a", 60) + "+" + strings.Repeat("b", 60)}
 	hdrNames   = []string{"X-A", "x-a", "X-B", "User-Agent", "X-Tok"}
